@@ -60,157 +60,9 @@ func checkC13(c *Ctx) {
 		c.Fail("C13-R2", "Handle:read-results", read.Pos(), "refuted", "the count or the error of the read is discarded")
 		return
 	}
-	// ---- R1 classification of returns
-	isEOFNeq := func(v ssa.Value) (bool, token.Token) {
-		bo, ok := v.(*ssa.BinOp)
-		if !ok {
-			return false, 0
-		}
-		x, y := bo.X, bo.Y
-		if x != errVal {
-			x, y = y, x
-		}
-		if x == errVal && isGlobalLoad(stripIface(y), "io", "EOF") {
-			return true, bo.Op
-		}
-		return false, 0
-	}
-	isTimeoutText := func(v ssa.Value) bool {
-		call, ok := v.(*ssa.Call)
-		if !ok || !calleeIs(call.Call.StaticCallee(), "strings", "Contains") {
-			return false
-		}
-		s, _ := constString(call.Call.Args[1])
-		inv, ok := call.Call.Args[0].(*ssa.Call)
-		return s == "i/o timeout" && ok && inv.Call.IsInvoke() && inv.Call.Value == errVal
-	}
-	kinds := map[string]int{}
-	for i, r := range returnsOf(fn) {
-		label := fmt.Sprintf("Handle:return#%d", i+1)
-		// the error returned is the read error
-		retErr := false
-		for _, ins := range r.Block().Instrs {
-			if st, ok := ins.(*ssa.Store); ok && st.Val == errVal {
-				retErr = true
-			}
-		}
-		if len(r.Results) == 1 && r.Results[0] == errVal {
-			retErr = true
-		}
-		facts := dominatingFacts(r.Block())
-		kind := ""
-		var notEOF, notTimeout bool
-		for _, f := range facts {
-			if is, op := isEOFNeq(f.Cond); is && ((op == token.NEQ && f.Val) || (op == token.EQL && !f.Val)) {
-				notEOF = true
-			}
-			if isTimeoutText(f.Cond) && !f.Val {
-				notTimeout = true
-			}
-			if bo, ok := f.Cond.(*ssa.BinOp); ok {
-				if isCfgCall(bo.X, "TimeoutOnEOF") && isZero(bo.Y) && ((bo.Op == token.EQL && f.Val) || (bo.Op == token.NEQ && !f.Val)) {
-					kind = "zero-tolerance"
-				}
-				if (bo.Op == token.GTR && f.Val) || (bo.Op == token.LEQ && !f.Val) {
-					// time.Since(*first) is time.Now().Sub(*first)
-					if since, ok := bo.X.(*ssa.Call); ok && calleeIs(since.Call.StaticCallee(), "time", "Since") && isCfgCall(bo.Y, "TimeoutOnEOF") {
-						if ld, ok := since.Call.Args[0].(*ssa.UnOp); ok && ld.Op == token.MUL {
-							if _, isPhi := ld.X.(*ssa.Phi); isPhi {
-								kind = "tolerance-elapsed"
-							}
-						}
-					}
-					if sub, ok := bo.X.(*ssa.Call); ok && sub.Call.StaticCallee() != nil && calleeFullName(sub.Call.StaticCallee()) == "(time.Time).Sub" {
-						if now, ok := sub.Call.Args[0].(*ssa.Call); ok && calleeIs(now.Call.StaticCallee(), "time", "Now") && isCfgCall(bo.Y, "TimeoutOnEOF") {
-							// measured from the stored time of the first EOF
-							if ld, ok := sub.Call.Args[1].(*ssa.UnOp); ok && ld.Op == token.MUL {
-								if _, isPhi := ld.X.(*ssa.Phi); isPhi {
-									kind = "tolerance-elapsed"
-								}
-							}
-						}
-					}
-				}
-			}
-		}
-		if kind == "" && notEOF && notTimeout {
-			kind = "other-error"
-		}
-		if kind == "" {
-			c.Fail("C13-R1", label+":unclassified", r.Pos(), "refuted", "Handle stops for a reason other than {non-retryable error, zero tolerance, tolerance elapsed}: a transient EOF/timeout ends the stream, or a retryable condition is treated as fatal")
-			continue
-		}
-		kinds[kind]++
-		// all three are on the error branch
-		onErr := false
-		for _, f := range facts {
-			if bo, ok := f.Cond.(*ssa.BinOp); ok && (bo.X == errVal || bo.Y == errVal) && (isNilConst(bo.X) || isNilConst(bo.Y)) {
-				if (bo.Op == token.NEQ && f.Val) || (bo.Op == token.EQL && !f.Val) {
-					onErr = true
-				}
-			}
-		}
-		c.Check(onErr && retErr, "C13-R1", label+":"+kind, r.Pos(), "returns the read error, on the error branch, for the reason: "+kind, "the return is not on the read-error branch or does not return the read error")
-	}
-	for _, k := range []string{"other-error", "zero-tolerance", "tolerance-elapsed"} {
-		c.Check(kinds[k] >= 1, "C13-R1", "exit-present("+k+")", fn.Pos(), "exit implemented", "the handler never stops for: "+k)
-	}
-	// zero-tolerance and elapsed exits are only for EOF/timeout errors: they are not reachable when the
-	// error is neither (the other-error return dominates that case) — i.e. the other-error test comes first
-	// (structure: the classification block dominates both)
+	ruleTransientGaps(c, fn, nVal, errVal, "C13-R1", "C13-R3")
 	// ---- R2 forward once
 	ruleForwardOnce(c, pl, "C13-R2", read, nVal, errVal)
-	// ---- R3 EOF clock
-	var clock *ssa.Phi
-	eachInstr(fn, func(ins ssa.Instruction) {
-		if phi, ok := ins.(*ssa.Phi); ok {
-			if pt, ok := phi.Type().Underlying().(*types.Pointer); ok && isTimeTime(pt.Elem()) {
-				clock = phi
-			}
-		}
-	})
-	if clock == nil {
-		c.Fail("C13-R3", "Handle:eof-clock", fn.Pos(), "unresolved", "no *time.Time loop variable (time of first EOF) found")
-	} else {
-		for i, e := range clock.Edges {
-			pred := clock.Block().Preds[i]
-			label := fmt.Sprintf("Handle:eof-clock-edge#%d", i+1)
-			switch {
-			case e == ssa.Value(clock):
-				c.OK("C13-R3", label+":kept", clock.Pos(), "clock unchanged")
-			case isNilConst(e):
-				if pred.Index == 0 || !clock.Block().Dominates(pred) {
-					c.OK("C13-R3", label+":initially-clear", clock.Pos(), "clock starts clear")
-					continue
-				}
-				// cleared only on the success path (dominated by n > 0)
-				okc := false
-				for _, f := range dominatingFacts(pred) {
-					if bo, ok := f.Cond.(*ssa.BinOp); ok && bo.X == nVal && bo.Op == token.GTR && f.Val {
-						okc = true
-					}
-				}
-				if pred == clock.Block() {
-					okc = false
-				}
-				c.Check(okc, "C13-R3", label+":cleared-on-success", clock.Pos(), "clock cleared only after a successful read", "the EOF clock is cleared on a path that did not read data: the tolerance never elapses")
-			default:
-				al, ok := e.(*ssa.Alloc)
-				good := false
-				if ok {
-					sv, _, one := singleStore(al)
-					if call, isCall := sv.(*ssa.Call); one && isCall && calleeIs(call.Call.StaticCallee(), "time", "Now") {
-						for _, f := range dominatingFacts(al.Block()) {
-							if bo, ok := f.Cond.(*ssa.BinOp); ok && bo.X == ssa.Value(clock) && isNilConst(bo.Y) && ((bo.Op == token.EQL && f.Val) || (bo.Op == token.NEQ && !f.Val)) {
-								good = true
-							}
-						}
-					}
-				}
-				c.Check(good, "C13-R3", label+":started-when-clear", clock.Pos(), "clock set to time.Now() only when it was clear (first EOF of a run)", "the EOF clock is restarted on every EOF (the tolerance never elapses) or set to something other than the current time")
-			}
-		}
-	}
 	// ---- R4 close and flush
 	ruleCloseDiscipline(c, pl, "C13-R4")
 	if f := newFraming(c, "C13-R4"); f != nil {
@@ -330,5 +182,169 @@ func ruleForwardOnce(c *Ctx, pl *pipeline, rule string, read *ssa.Call, nVal, er
 	// fresh buffer per iteration
 	if bi, ok := sliceBase(buf).(ssa.Instruction); ok {
 		c.Check(blockInLoop(bi.Block()), rule, "Handle:fresh-buffer", read.Pos(), "a new buffer is allocated for every read", "the read buffer is shared across iterations")
+	}
+}
+
+// ruleTransientGaps (C13-R1/R3, C09-R9): how Handle classifies read errors
+// (rule1) and how it times a run of EOF/timeout results (rule3).  Shared by
+// C13 and C09: both properties quantify over how the input is chunked in time.
+func ruleTransientGaps(c *Ctx, fn *ssa.Function, nVal, errVal ssa.Value, rule1, rule3 string) {
+	// ---- R1 classification of returns
+	isEOFNeq := func(v ssa.Value) (bool, token.Token) {
+		bo, ok := v.(*ssa.BinOp)
+		if !ok {
+			return false, 0
+		}
+		x, y := bo.X, bo.Y
+		if x != errVal {
+			x, y = y, x
+		}
+		if x == errVal && isGlobalLoad(stripIface(y), "io", "EOF") {
+			return true, bo.Op
+		}
+		return false, 0
+	}
+	isTimeoutText := func(v ssa.Value) bool {
+		call, ok := v.(*ssa.Call)
+		if !ok || !calleeIs(call.Call.StaticCallee(), "strings", "Contains") {
+			return false
+		}
+		s, _ := constString(call.Call.Args[1])
+		inv, ok := call.Call.Args[0].(*ssa.Call)
+		return s == "i/o timeout" && ok && inv.Call.IsInvoke() && inv.Call.Value == errVal
+	}
+	kinds := map[string]int{}
+	for i, r := range returnsOf(fn) {
+		label := fmt.Sprintf("Handle:return#%d", i+1)
+		// the error returned is the read error
+		retErr := false
+		for _, ins := range r.Block().Instrs {
+			if st, ok := ins.(*ssa.Store); ok && st.Val == errVal {
+				retErr = true
+			}
+		}
+		if len(r.Results) == 1 && r.Results[0] == errVal {
+			retErr = true
+		}
+		facts := dominatingFacts(r.Block())
+		kind := ""
+		var notEOF, notTimeout bool
+		for _, f := range facts {
+			if is, op := isEOFNeq(f.Cond); is && ((op == token.NEQ && f.Val) || (op == token.EQL && !f.Val)) {
+				notEOF = true
+			}
+			if isTimeoutText(f.Cond) && !f.Val {
+				notTimeout = true
+			}
+			if bo, ok := f.Cond.(*ssa.BinOp); ok {
+				if isCfgCall(bo.X, "TimeoutOnEOF") && isZero(bo.Y) && ((bo.Op == token.EQL && f.Val) || (bo.Op == token.NEQ && !f.Val)) {
+					kind = "zero-tolerance"
+				}
+				if (bo.Op == token.GTR && f.Val) || (bo.Op == token.LEQ && !f.Val) {
+					// time.Since(*first) is time.Now().Sub(*first)
+					if since, ok := bo.X.(*ssa.Call); ok && calleeIs(since.Call.StaticCallee(), "time", "Since") && isCfgCall(bo.Y, "TimeoutOnEOF") {
+						if ld, ok := since.Call.Args[0].(*ssa.UnOp); ok && ld.Op == token.MUL {
+							if _, isPhi := ld.X.(*ssa.Phi); isPhi {
+								kind = "tolerance-elapsed"
+							}
+						}
+					}
+					if sub, ok := bo.X.(*ssa.Call); ok && sub.Call.StaticCallee() != nil && calleeFullName(sub.Call.StaticCallee()) == "(time.Time).Sub" {
+						if now, ok := sub.Call.Args[0].(*ssa.Call); ok && calleeIs(now.Call.StaticCallee(), "time", "Now") && isCfgCall(bo.Y, "TimeoutOnEOF") {
+							// measured from the stored time of the first EOF
+							if ld, ok := sub.Call.Args[1].(*ssa.UnOp); ok && ld.Op == token.MUL {
+								if _, isPhi := ld.X.(*ssa.Phi); isPhi {
+									kind = "tolerance-elapsed"
+								}
+							}
+						}
+					}
+				}
+			}
+		}
+		if kind == "" && notEOF && notTimeout {
+			kind = "other-error"
+		}
+		if kind == "" {
+			c.Fail(rule1, label+":unclassified", r.Pos(), "refuted", "Handle stops for a reason other than {non-retryable error, zero tolerance, tolerance elapsed}: a transient EOF/timeout ends the stream, or a retryable condition is treated as fatal")
+			continue
+		}
+		kinds[kind]++
+		// all three are on the error branch
+		onErr := false
+		for _, f := range facts {
+			if bo, ok := f.Cond.(*ssa.BinOp); ok && (bo.X == errVal || bo.Y == errVal) && (isNilConst(bo.X) || isNilConst(bo.Y)) {
+				if (bo.Op == token.NEQ && f.Val) || (bo.Op == token.EQL && !f.Val) {
+					onErr = true
+				}
+			}
+		}
+		c.Check(onErr && retErr, rule1, label+":"+kind, r.Pos(), "returns the read error, on the error branch, for the reason: "+kind, "the return is not on the read-error branch or does not return the read error")
+	}
+	for _, k := range []string{"other-error", "zero-tolerance", "tolerance-elapsed"} {
+		c.Check(kinds[k] >= 1, rule1, "exit-present("+k+")", fn.Pos(), "exit implemented", "the handler never stops for: "+k)
+	}
+	// zero-tolerance and elapsed exits are only for EOF/timeout errors: they are not reachable when the
+	// error is neither (the other-error return dominates that case) — i.e. the other-error test comes first
+	// (structure: the classification block dominates both)
+	// ---- R3 EOF clock
+	var clock *ssa.Phi
+	eachInstr(fn, func(ins ssa.Instruction) {
+		if phi, ok := ins.(*ssa.Phi); ok {
+			if pt, ok := phi.Type().Underlying().(*types.Pointer); ok && isTimeTime(pt.Elem()) {
+				clock = phi
+			}
+		}
+	})
+	if clock == nil {
+		c.Fail(rule3, "Handle:eof-clock", fn.Pos(), "unresolved", "no *time.Time loop variable (time of first EOF) found")
+	} else {
+		for i, e := range clock.Edges {
+			pred := clock.Block().Preds[i]
+			label := fmt.Sprintf("Handle:eof-clock-edge#%d", i+1)
+			switch {
+			case e == ssa.Value(clock):
+				// after a successful read the clock must not survive: a later, unrelated
+				// interruption would be measured from the first one and end the stream at once
+				afterSuccess := false
+				for _, f := range dominatingFacts(pred) {
+					if bo, ok := f.Cond.(*ssa.BinOp); ok && bo.X == nVal && bo.Op == token.GTR && f.Val {
+						afterSuccess = true
+					}
+				}
+				c.Check(!afterSuccess, rule3, label+":kept", clock.Pos(), "clock unchanged (no data was read on this path)",
+					"the EOF clock is not cleared after a successful read: the next transient EOF is timed from an earlier one and the handler gives up although the tolerance has not elapsed")
+			case isNilConst(e):
+				if pred.Index == 0 || !clock.Block().Dominates(pred) {
+					c.OK(rule3, label+":initially-clear", clock.Pos(), "clock starts clear")
+					continue
+				}
+				// cleared only on the success path (dominated by n > 0)
+				okc := false
+				for _, f := range dominatingFacts(pred) {
+					if bo, ok := f.Cond.(*ssa.BinOp); ok && bo.X == nVal && bo.Op == token.GTR && f.Val {
+						okc = true
+					}
+				}
+				if pred == clock.Block() {
+					okc = false
+				}
+				c.Check(okc, rule3, label+":cleared-on-success", clock.Pos(), "clock cleared only after a successful read", "the EOF clock is cleared on a path that did not read data: the tolerance never elapses")
+			default:
+				al, ok := e.(*ssa.Alloc)
+				good := false
+				if ok {
+					sv, _, one := singleStore(al)
+					if call, isCall := sv.(*ssa.Call); one && isCall && calleeIs(call.Call.StaticCallee(), "time", "Now") {
+						for _, f := range dominatingFacts(al.Block()) {
+							if bo, ok := f.Cond.(*ssa.BinOp); ok && bo.X == ssa.Value(clock) && isNilConst(bo.Y) && ((bo.Op == token.EQL && f.Val) || (bo.Op == token.NEQ && !f.Val)) {
+								good = true
+							}
+						}
+					}
+				}
+				c.Check(good, rule3, label+":started-when-clear", clock.Pos(), "clock set to time.Now() only when it was clear (first EOF of a run)", "the EOF clock is restarted on every EOF (the tolerance never elapses) or set to something other than the current time")
+			}
+		}
 	}
 }
